@@ -806,7 +806,10 @@ class Server():
 
             if responder.ended:
                 requestant = self.reqs[ca]
-                if requestant.persisted:
+                # a response with neither content-length nor chunked encoding
+                # can only be delimited by closing the connection
+                framed = responder.chunked or responder.length is not None
+                if requestant.persisted and framed:
                     if requestant.parser is None:  # reuse
                         requestant.makeParser()  # resets requestant parser
                 else:  # not persistent so close and remove requestant and responder
